@@ -1,6 +1,7 @@
 package c18
 
 import (
+	"strings"
 	"sync"
 	"fmt"
 	"testing"
@@ -290,4 +291,75 @@ func TestDev7(t *testing.T) {
 	}
 	wg.Wait()
 	fmt.Println("hits", hits, "of", total, time.Since(t0))
+}
+
+func TestDevPing(t *testing.T) {
+	for seed := 0; seed < 6; seed++ {
+		c := rapidExamplePing(seed)
+		t0 := time.Now()
+		o := run(c)
+		fmt.Println("ping case", seed, time.Since(t0), c.key())
+		dump(o)
+		for _, v := range judge(o) {
+			fmt.Println("  VIOL", v)
+		}
+	}
+}
+
+func TestDevPing2(t *testing.T) {
+	c := rapidExamplePing(5)
+	fmt.Println(c.key())
+	for r := 0; r < 5; r++ {
+		o := run(c)
+		w := o.w
+		for _, uc := range w.conns {
+			fmt.Printf("  conn %d tuple=%d proto=%s pings=%d closed=%v abrupt=%v\n", uc.idx, uc.tuple, uc.proto, uc.pings, uc.closed, uc.abrupt)
+		}
+		for i := range w.subs {
+			fmt.Println("  ", i, w.summary(i))
+		}
+	}
+}
+
+func TestDevPing3(t *testing.T) {
+	var wg sync.WaitGroup
+	var mu sync.Mutex
+	kills, total := 0, 0
+	for g := 0; g < 8; g++ {
+		wg.Add(1)
+		go func(g int) {
+			defer wg.Done()
+			c := rapidExamplePing(4 + g%2)
+			for r := 0; r < 6; r++ {
+				o := run(c)
+				hit := false
+				for _, v := range judge(o) {
+					if strings.Contains(v.msg, "client itself closed") {
+						hit = true
+						mu.Lock()
+						for _, uc := range o.w.conns {
+							fmt.Printf("  conn %d tuple=%d pings=%d closed=%v\n", uc.idx, uc.tuple, uc.pings, uc.closed)
+						}
+						fmt.Println(" ", v.msg[:60], c.Ping)
+						mu.Unlock()
+					}
+				}
+				mu.Lock()
+				total++
+				if hit {
+					kills++
+				}
+				mu.Unlock()
+			}
+		}(g)
+	}
+	wg.Wait()
+	fmt.Println("healthy kills", kills, "of", total)
+}
+
+func TestDevPingProbe(t *testing.T) {
+	for r := 0; r < 4; r++ {
+		t0 := time.Now()
+		fmt.Println(probePingRace(), time.Since(t0))
+	}
 }
